@@ -227,7 +227,7 @@ def _mk(kind, N):
     return f
 
 
-def _run(kind, N):
+def _run(kind, N, then_empty=False):
     from resonaate.estimation.adaptive import adaptive_filter as AF
     from resonaate.estimation.adaptive import gpb1 as G
     from resonaate.estimation.adaptive import smm as S
@@ -271,6 +271,13 @@ def _run(kind, N):
     mod = S if kind == "smm" else G
     with shadow(mod, exp=exp_stub, det=det_stub), shadow(AF, zeros=sym_zeros), shadow(ST, chi2=Chi2Stub()), shadow(G, zeros=sym_zeros, ones=_ones):
         f.update(["obs"])
+        if then_empty:
+            # a step in which nothing was measured follows (only while adaptive estimation is still open)
+            mid = {"w": np.array(f.model_weights, dtype=object).copy(), "mu": np.array(f.mode_probabilities, dtype=object).copy(), "n": len(f.models),
+                   "closed": f._converged_filter is not None, "nsnaps": len(snaps)}
+            if not mid["closed"]:
+                f.update([])
+            return f, w0, mu0, models0, es, ds, calls, snaps, like, mid
     return f, w0, mu0, models0, es, ds, calls, snaps, like
 
 
@@ -281,7 +288,7 @@ def _ones(shape, dtype=None):
 
 
 def _dispatch(d, kind):
-    fn = {"bayes": replay_bayes, "mode-prob": replay_mode_prob, "moments": replay_moments}.get(d.get("check"), replay_mm)
+    fn = {"bayes": replay_bayes, "mode-prob": replay_mode_prob, "moments": replay_moments, "noobs": replay_noobs}.get(d.get("check"), replay_mm)
     return fn(d, kind)
 
 
@@ -366,6 +373,10 @@ def _numeric_update(d, kind):
         warnings.simplefilter("ignore")
         with np.errstate(all="ignore"), shadow(ST, chi2=Gate):
             f.update(["obs"])
+            if d.get("then_empty") and f._converged_filter is None:
+                f.mid_weights = np.asarray(f.model_weights, dtype=float).copy()
+                f.mid_n = len(f.models)
+                f.update([])
     return f, (first[0]["w"] if first else None)
 
 
@@ -395,6 +406,25 @@ def replay_bayes(d, kind):
         return False, detail
     detail["posterior_by_bayes_rule"] = want
     dev = max(abs(a - b) for a, b in zip(post, want))
+    detail["max_deviation"] = dev
+    return bool(dev > BAYES_TOL / 10), detail
+
+
+def replay_noobs(d, kind):
+    """An update without observations after an observed one: nothing was measured, so the model probabilities must stay what they were
+    (Bayes' rule with no evidence) and the combined estimate the probability-weighted mean of the models."""
+    d = dict(d, then_empty=True)
+    f, _post = _numeric_update(d, kind)
+    if not hasattr(f, "mid_weights"):
+        return False, {"why": "adaptive estimation closed in the observed step"}
+    w1, w2 = f.mid_weights, np.asarray(f.model_weights, dtype=float)
+    detail = {"probabilities_after_observed_step": w1.tolist(), "probabilities_after_empty_step": w2.tolist()}
+    if f._converged_filter is not None and len(w2) != len(w1):
+        # closing on an empty step can only come from pruning/convergence on unchanged probabilities
+        return False, detail
+    if len(w1) != len(w2) or not np.all(np.isfinite(w2)):
+        return True, detail
+    dev = float(np.abs(w1 - w2).max())
     detail["max_deviation"] = dev
     return bool(dev > BAYES_TOL / 10), detail
 
@@ -610,8 +640,62 @@ def o_mm(rep, kind, N, part=0, parts=1):
 REPLAYS = {}
 
 
+def o_noobs(rep, kind, N):
+    """observed step, then a step without observations (while adaptive estimation is open): probabilities unchanged"""
+    res = explore(lambda: _run(kind, N, then_empty=True), max_paths=3000, max_depth=200, recip=False)
+    rep.note(f"{kind} N={N} observed+empty: paths={len(res)}")
+    replay = replay_smm if kind == "smm" else replay_gpb1
+    n = open_paths = 0
+    for r in res:
+        if r.exc is not None:
+            rep.error("exception", f"{r.exc!r}")
+            continue
+        f, w0, mu0, models0, es, ds, calls, snaps, like, mid = r.out
+        n += 1
+        if mid["closed"]:
+            continue
+        open_paths += 1
+        tag = f"{kind}[N={N}]#{n}"
+
+        def inputs(m, es=es, ds=ds):
+            import math
+
+            e = [mfloat(m, x.t) for x in es]
+            dd = [mfloat(m, x.t) for x in ds]
+            nis = [(-2 * math.log(x) if x > 0 else 1e6) for x in e]
+            return {"w": [mfloat(m, z3.Real(f"w_{i}")) for i in range(N)], "mu": [mfloat(m, z3.Real(f"mu_{i}")) for i in range(N)], "nis": nis, "det": dd,
+                    "thr": mfloat(m, z3.Real("thr")), "pct": mfloat(m, z3.Real("pct")), "gate_open": True, "check": "noobs"}
+
+        w1 = [_tr(x) for x in mid["w"]]
+        still_open = f._converged_filter is None
+        w2 = [_tr(x) for x in f.model_weights]
+        if not still_open and len(w2) != len(w1):
+            # the empty step closed adaptive estimation (pruning / convergence on the unchanged probabilities): weights are those of the survivor
+            continue
+        bt = rv(BAYES_TOL)
+        same = z3.And(z3.BoolVal(len(w1) == len(w2)), *[z3.And(a - b <= bt, b - a <= bt) for a, b in zip(w1, w2)]) if len(w1) == len(w2) else z3.BoolVal(False)
+        _prove(rep, f"{tag}-empty-step-keeps-probabilities", same, r.constraints, timeout_ms=60000, inputs=inputs, replay=replay,
+               sample="model probabilities after a step without observations = the probabilities before it (no evidence, no Bayes factor)")
+        # the step's stacked estimate is the probability-weighted mean of the models' estimates under those probabilities
+        if len(snaps) > mid["nsnaps"] and len(w1) == len(w2):
+            s1 = snaps[-1]
+            ex = np.array(s1["est_x"], dtype=object)
+            want = sum((np.array(mdl.est_x, dtype=object) * SReal(wi) for mdl, wi in zip(s1["models"], w1)), np.zeros(len(ex), dtype=object))
+            _prove(rep, f"{tag}-empty-step-mean", z3.And(*[_tr(a) == _tr(b) for a, b in zip(ex, want)]), r.constraints, timeout_ms=60000, inputs=inputs, replay=replay,
+                   sample="combined estimate of the empty step = mean of the models' estimates weighted with the unchanged probabilities")
+    if open_paths == 0:
+        rep.error("reach", "no path on which adaptive estimation stays open after the observed step")
+    else:
+        rep.reach.append(f"{kind}[N={N}] paths still open after the observed step: {open_paths}")
+
+
 def obligations(tier):
     obs = []
+    for kind in ("smm", "gpb1"):
+        for N in ((2,) if tier == "quick" else (2, 3)):
+            name = f"{kind}-N{N}-noobs"
+            obs.append(Ob(name, (lambda k, n: lambda rep: o_noobs(rep, k, n))(kind, N), f"{kind}: an observed update followed by an update without observations, {N} models", 900))
+            REPLAYS[name] = replay_smm if kind == "smm" else replay_gpb1
     for kind in ("smm", "gpb1"):
         for N in ((2, 3) if tier == "quick" else (2, 3, 4)):
             parts = 6 if (kind == "smm" and N >= 3) else (3 if N >= 4 else 1)
